@@ -320,6 +320,9 @@ func c02Build(seed uint64, idx int, tier string) *c02Case {
 			if c.kind == KInts && r.Chance(1, 6) {
 				a := -r.Range(1, 30) // signed bounds are fine behind `=` (detached, `-3..-1` would look like an option)
 				at = fmt.Sprintf("%d..%d", a, a+r.Range(1, 6))
+				if r.Chance(1, 3) {
+					at = fmt.Sprintf("%d..%s", a, r.Pick([]string{"x", "", "1x", "2.5", "0x3"})) // a bound that is not a number: not an int range, not an int
+				}
 			}
 			c.argv = append(c.argv, "--multi="+at)
 			c.attached = true
